@@ -22,7 +22,8 @@
 (* clause and then ADOPTS the recorded state, so that every later call is  *)
 (* judged from the state the implementation really was in.                 *)
 (*   clauses: result, state, placement (shape: drift, not a violation),    *)
-(*            get, peeled, as_dict, symrefs, git-refs, git-peeled,         *)
+(*            get, peeled, as_dict, symrefs, subkeys:<i>, as_dict-base:<i> *)
+(*            (the i-th base-restricted listing), git-refs, git-peeled,    *)
 (*            git-symref, git-head                                         *)
 (* For the in-memory and reftable backends only calls inside the common    *)
 (* contract (RefMap!Common) are judged; the others are just adopted.       *)
@@ -109,6 +110,19 @@ Failures(e, o, judged) ==
                                    \/ g \notin Values /\ p \in {"exc:KeyError", "exc:SymrefLoop"})}}
         resolv  == {n \in Names : obs'[n] \in Values}
         asdOK   == e.asdx = "" /\ {<<x.n, x.v>> : x \in Range(e.asd)} = {<<n, obs'[n]>> : n \in resolv}
+        \* base-restricted listings: subkeys(base) / as_dict(base) name what lies under the base (whole path
+        \* components), the base stripped -- the same with and without a trailing slash, nothing for a base cut
+        \* inside a component
+        UnderB(s) == IF s.mode = "partial" THEN {}
+                     ELSE {n \in Names : oE[n].k # "absent" /\ IsStrictPrefix(s.base, n)}
+        Strip(s, n) == SubSeq(n, Len(s.base) + 1, Len(n))
+        badKeys == {<<"subkeys:" \o ToString(i), e.sub[i].mode, NoName>> :
+                       i \in {j \in DOMAIN e.sub : ~(e.sub[j].keysx = ""
+                                 /\ Range(e.sub[j].keys) = {Strip(e.sub[j], n) : n \in UnderB(e.sub[j])})}}
+        badSubD == {<<"as_dict-base:" \o ToString(i), e.sub[i].mode, NoName>> :
+                       i \in {j \in DOMAIN e.sub : ~(e.sub[j].asdx = ""
+                                 /\ {<<x.k, x.v>> : x \in Range(e.sub[j].asd)}
+                                      = {<<Strip(e.sub[j], n), obs'[n]>> : n \in UnderB(e.sub[j]) \cap resolv})}}
         symOK   == e.symx = "" /\ {<<x.n, x.t>> : x \in Range(e.sym)} = {<<n, oE[n].t>> : n \in {x \in Names : oE[x].k = "sym"}}
         hasGit  == IsFiles /\ e.git.on /\ NoCollision(oE)
         listed  == {n \in resolv : n # HeadRef \/ e.git.head_ok}
@@ -124,7 +138,7 @@ Failures(e, o, judged) ==
     IN  (IF judged /\ ~resOK THEN F("result") ELSE {})
         \cup (IF judged /\ resOK /\ ~stateOK THEN F("state") ELSE {})
         \cup (IF judged /\ resOK /\ stateOK /\ ~placeOK THEN F("placement") ELSE {})
-        \cup badGet \cup badPeel
+        \cup badGet \cup badPeel \cup badKeys \cup badSubD
         \cup (IF ~asdOK THEN F("as_dict") ELSE {})
         \cup (IF ~symOK THEN F("symrefs") ELSE {})
         \cup (IF hasGit /\ ~gRefsOK THEN F("git-refs") ELSE {})
